@@ -339,7 +339,7 @@ func (vc *VC) instr(st *State, fr *Frame, in ssa.Instruction, k func(*State, *Fr
 		}
 		sv := vc.val(st, fr, x.Val)
 		vc.storeAt(st, p, x.Val.Type(), sv)
-		st.escape(sv)
+		st.storeEscape(p, sv)
 		if al, ok := x.Addr.(*ssa.Alloc); ok && singleAssign(al) {
 			// a captured variable that is assigned exactly once keeps its
 			// value across calls (nobody else can write the cell)
@@ -1339,13 +1339,57 @@ var allocTok = regexp.MustCompile(`(?:a|arr|map|clo)![0-9]+`)
 
 // escape marks every allocation constant occurring in the term as
 // possibly known to code outside the current function.
+// storeEscape: a reference stored into memory escapes - unless the memory
+// belongs to an allocation of this function that has not escaped itself; then
+// the reference is merely held by that allocation and escapes when it does.
+func (st *State) storeEscape(p, v T) {
+	parents := allocTok.FindAllString(p.S, -1)
+	if p.Loc != nil {
+		parents = append(parents, allocTok.FindAllString(p.Loc.Base, -1)...)
+	}
+	private := len(parents) > 0
+	known := map[string]bool{}
+	for _, a := range st.allocs {
+		known[a] = true
+	}
+	for _, t := range parents {
+		if !known[t] || st.escaped[t] {
+			private = false
+		}
+	}
+	if !private {
+		st.escape(v)
+		return
+	}
+	if st.held == nil {
+		st.held = map[string][]string{}
+	}
+	toks := allocTok.FindAllString(v.S, -1)
+	for _, t := range v.Tup {
+		toks = append(toks, allocTok.FindAllString(t.S, -1)...)
+	}
+	for _, par := range parents {
+		st.held[par] = append(st.held[par], toks...)
+	}
+}
+
 func (st *State) escape(v T) {
 	if st.escaped == nil {
 		st.escaped = map[string]bool{}
 	}
+	var markTok func(m string)
+	markTok = func(m string) {
+		if st.escaped[m] {
+			return
+		}
+		st.escaped[m] = true
+		for _, c := range st.held[m] {
+			markTok(c) // what a private object holds escapes with it
+		}
+	}
 	mark := func(s string) {
 		for _, m := range allocTok.FindAllString(s, -1) {
-			st.escaped[m] = true
+			markTok(m)
 		}
 	}
 	mark(v.S)
